@@ -1,18 +1,18 @@
 #!/bin/bash
 # run verify_seed.sh for many seed directories in N isolated lanes (each its own copy of /verif and its own worktree of /repo HEAD)
-# usage: lanes.sh <N> <file with lines "<seed dir> <Cxx> [more checks]">   -> /tmp/lanes_out/<basename of seed dir>.txt
+# usage: lanes.sh <N> <file with lines "<seed dir> <Cxx> [more checks]">   -> ${LANE_OUT:-/tmp/lanes_out}/<basename of seed dir>.txt
 N=$1; LIST=$2
-mkdir -p /tmp/lanes_out
+mkdir -p ${LANE_OUT:-/tmp/lanes_out}
 for i in $(seq 1 $N); do
   (
-    L=/tmp/lane$i
+    L=/tmp/${LANE_PREFIX:-lane}$i
     git -C /repo worktree remove --force $L/repo >/dev/null 2>&1; rm -rf $L; mkdir -p $L
     git -C /repo worktree add --detach $L/repo HEAD >/dev/null 2>&1
     rsync -a --exclude replays /verif/ $L/verif/
     export BYCYCLE_REPO=$L/repo PYTHONPATH=$L/repo
     cd $L/verif
     awk -v n=$N -v i=$i 'NR % n == i % n' $LIST | while read d rest; do
-      ./tools/verify_seed.sh $d $rest > /tmp/lanes_out/$(basename $d).txt 2>&1
+      ./tools/${LANE_SCRIPT:-verify_seed.sh} $d $rest > ${LANE_OUT:-/tmp/lanes_out}/$(basename $d).txt 2>&1
     done
     cd /; git -C /repo worktree remove --force $L/repo >/dev/null 2>&1; rm -rf $L
   ) &
